@@ -151,7 +151,8 @@ Definition chk_main (c : main_case) : Z :=
       match rd with
       | None => 1                  (* a documented way of building the Sim raised *)
       | Some rb =>
-          if negb (spec_all (frel_tree t) intended out) then 1
+          if negb (spec_all frel_nearest intended out) then 1            (* the property itself: every float field is the nearest double *)
+          else if negb (spec_all (frel_tree t) intended out) then 2     (* ... and is what the tree's float() returns for that value *)
           else if negb (forall2b sim_eqb intended rb) then 2
           else match export_all rb, out with
                | Ok mo, Some io => if forall2b (out_eqb t) mo io then 0 else 2
@@ -161,7 +162,7 @@ Definition chk_main (c : main_case) : Z :=
       end
   end.
 
-(* informational: number of float fields whose tree value is not the nearest double (property C14's part) *)
+(* number of float() results of the tree that are not the nearest double (cross-checked against CPython's Fraction) *)
 Definition chk_round (c : main_case) : Z :=
   let '(_, _, _, t) := c in
   zlen (filter (fun x => let '(m, e, d) := x in negb (nearest_double m e d)) t).
